@@ -684,7 +684,15 @@ def unit_fn(unit: Tuple[str, bool, List[Method]]) -> Part:
         it, pt, cm = methods[len(methods) // 2]
         part.sample({"it": it, "pt": pt, "cm": cm}, limit=1)
     oe.strict_mode = True
+    _drop_scratch()
     return part
+
+
+def _drop_scratch() -> None:
+    """pool workers leave through os._exit (no atexit): remove this process's scratch directory now"""
+    import shutil
+    from odxmodel.emit import scratch_dir
+    shutil.rmtree(scratch_dir(), ignore_errors=True)
 
 
 def run(ctx: Ctx) -> None:
@@ -707,7 +715,8 @@ def run(ctx: Ctx) -> None:
         "linear": "offset {-3,0,1,2.5} x factor {-2,-1,-0.5,0,0.5,1,3} x denominator " + ("{1,4}" if quick else "{1,2,4}") + " (fractional literals only for float physical types) x 6 limit shapes (none, [a,b], (a,b), [a,inf), (a,b] with bare upper value, (INFINITE-with-value, b))",
         "scale_linear": "1..4 adjacent scales, slopes from {-2,-1,0,1,3,1/2} (n<=2), {-1,0,1,3}^3, {-1,0,2}^4; continuous and with jumps of +7; limit styles " + ("co, cc" if quick else "co, cc, oc, inf") + "; zero slopes with and without COMPU-INVERSE-VALUE",
         "tab_intp": "2..4 points, all y sequences over a 4-value menu (increasing, decreasing, non-monotone, plateaus)",
-        "rat_func": "7 numerators (degree <= 2) x 5 denominators (absent, degree 0, degree 1) x limit shapes x {no inverse, exact inverse, restricted / unrelated inverse}",
+        "rat_func": ("5 numerators x 4 denominators x 4 limit shapes" if quick else "7 numerators (degree <= 2) x 5 denominators (absent, degree 0, degree 1) x 6 limit shapes")
+                    + " x {no inverse, exact inverse, restricted / unrelated inverse}; SCALE-RAT-FUNC: 1..3 scales from 5 segment templates",
         "texttable": "all 1..4-subsets of 8 scale templates (points, ranges, OPEN limits, overlapping, INFINITE, missing inverse) x 5 default-value shapes",
     }
     ctx.rule = ("one evaluation = one call of is_valid_internal_value / convert_internal_to_physical / is_valid_physical_value / "
